@@ -82,3 +82,13 @@ Proof.
         rewrite Hd, Hi, Hx in H. injection H as <- _.
         rewrite (trim_spaces _ _ Hnb). apply same_reading_refl.
 Qed.
+
+(* ... but not the other way round for what is NOT captured: the block-start pattern does not ask
+   for white space after the processor name, so a line the assembler rejects (unknown processor
+   assemblex) is re-printed as a block start with an argument - white space only, inside a word
+   (known finding C10-blockstart-word-split) *)
+Example blockstart_word_split :
+  process_line $"##!>assemblex" 0 = (Some $"##!> assemble x", 1%nat) /\
+  m_processor_start $"##!>assemblex" = Some ($"assemblex", []) /\
+  m_processor_start $"##!> assemble x" = Some ($"assemble", $"x").
+Proof. repeat split; vm_compute; reflexivity. Qed.
